@@ -306,7 +306,7 @@ class Run:
                 self.model.classes.add('relayout')
                 if op.get('shrinkvs'):
                     self.model.classes.add('relayout-declared-size-too-small')
-        if op.get('foreign') and not self.model.has['udf'] and self.model.boot is None and self.model.hybrid is None:
+        if op.get('foreign') and not self.model.has['udf'] and self.model.hybrid is None:
             # stand-in for a foreign image: the same logical content mastered from scratch by vf/indep/remaster.py
             from vf.indep import remaster
             try:
@@ -322,6 +322,8 @@ class Run:
                 self.foreign_img = alt
                 self.model.classes.add('foreign-remaster')
                 self.model.classes.add('foreign-remaster/family-%d' % op['foreign'].get('family', 0))
+                if self.model.boot is not None:
+                    self.model.classes.add('foreign-remaster/eltorito')
                 if op['foreign'].get('budget', 255) < 200:
                     self.model.classes.add('foreign-remaster/small-in-record-budget')
             else:
